@@ -28,6 +28,8 @@ def child(x):
 
 
 class VErr(Exception):
+    __bool__ = lambda self: False       # unusual but legal: a falsy exception object
+
     """what a failing body raises; the payload says which body ran with which bound object and arguments"""
 
     def __init__(self, payload):
